@@ -40,25 +40,25 @@ def handle (args : List String) (_impl : String) : String × String :=
     let m := 2 ^ bits
     match op with
     | "not" | "notop" | "notref" => (out (Ruint.Gen.uint_not (nlimbs bits + 1) bits (nlimbs bits) a), toHex (m - 1 - x))
-    | "rev" => (out (reverseBits bits a), toHex (revNat bits x))
+    | "rev" => (out (Ruint.Gen.uint_reverse_bits (nlimbs bits + 1) bits (nlimbs bits) a), toHex (revNat bits x))
     | "lz" => (toHex (Ruint.Gen.uint_leading_zeros (nlimbs bits + 1) bits (nlimbs bits) a), toHex (bits - size x))
     | "lo" => (toHex (Ruint.Gen.uint_leading_ones (nlimbs bits + 1) bits (nlimbs bits) a), toHex (bits - size (m - 1 - x)))
-    | "tz" => (toHex (trailingZeros bits a), toHex (if x = 0 then bits else tzNat x))
-    | "to" => (toHex (trailingOnes bits a), toHex (tzNat (x + 1)))
+    | "tz" => (toHex (Ruint.Gen.uint_trailing_zeros bits (nlimbs bits) a), toHex (if x = 0 then bits else tzNat x))
+    | "to" => (toHex (Ruint.Gen.uint_trailing_ones bits (nlimbs bits) a), toHex (tzNat (x + 1)))
     | "cnt1" => (toHex (Ruint.Gen.uint_count_ones (nlimbs bits + 1) bits (nlimbs bits) a), toHex (popNat (bits + 1) x))
     | "cnt0" => (toHex (Ruint.Gen.uint_count_zeros (nlimbs bits + 1) bits (nlimbs bits) a), toHex (bits - popNat (bits + 1) x))
     | "bitlen" => (toHex (Ruint.Gen.uint_bit_len (nlimbs bits + 1) bits (nlimbs bits) a), toHex (size x))
     | "bytelen" => (toHex (Ruint.Gen.uint_byte_len (nlimbs bits + 1) bits (nlimbs bits) a), toHex ((size x + 7) / 8))
     | "msb" =>
-      let r := mostSignificantBits a
+      let r := Ruint.Gen.uint_most_significant_bits bits (nlimbs bits) a
       let e := size x - 64
       (toHex r.1 ++ " " ++ toHex r.2, toHex (x / 2 ^ e) ++ " " ++ toHex e)
-    | "ispow2" => (boolStr (isPowerOfTwo a), boolStr (decide (x ≠ 0 ∧ x &&& (x - 1) = 0)))
+    | "ispow2" => (boolStr (Ruint.Gen.uint_is_power_of_two (nlimbs bits + 1) bits (nlimbs bits) a), boolStr (decide (x ≠ 0 ∧ x &&& (x - 1) = 0)))
     | "cnpow2" | "npow2" =>
       let k := if x ≤ 1 then 0 else Nat.log2 (x - 1) + 1
       let no := if op = "npow2" then "panic" else "none"
       let pre := if op = "npow2" then "" else "some "
-      ((match checkedNextPowerOfTwo bits a with
+      ((match Ruint.Gen.uint_checked_next_power_of_two (nlimbs bits + 1) bits (nlimbs bits) a with
         | some v => pre ++ out v
         | none => no),
        if k < bits then pre ++ toHex (2 ^ k) else no)
